@@ -44,6 +44,19 @@ class FakeFile:
         self.pos += 1
         return ln
 
+    def __iter__(self):
+        while True:
+            ln = self.readline()
+            if not ln:
+                return
+            yield ln
+
+    def readlines(self):
+        return list(self)
+
+    def close(self):
+        pass
+
     def __enter__(self):
         return self
 
@@ -51,7 +64,40 @@ class FakeFile:
         return False
 
 
+class FakeImportlib:
+    """Stand-in for the module-global `importlib` of scippneutron.atoms: the bundled data files are the I/O boundary.
+    importlib.resources.files(pkg).joinpath(name).open('r') -> a fake file of symbolic lines (per file name)."""
+
+    def __init__(self, files):
+        self._files = files
+        self.resources = self
+
+    def __getattr__(self, name):
+        import importlib
+
+        return getattr(importlib, name)
+
+    def files(self, pkg):
+        return self
+
+    def joinpath(self, name):
+        outer = self
+
+        class _P:
+            def open(self, *a, **k):
+                return outer._files[name]()
+
+            def read_text(self, *a, **k):
+                raise NotImplementedError
+
+        return _P()
+
+    def __truediv__(self, name):
+        return self.joinpath(name)
+
+
 _CONV: dict = {}
+_UNIQ = {'n': 0}
 
 
 def _decimal_lang():
@@ -166,7 +212,11 @@ def _isotope_match(string, capture_digits=False):
 
 
 def SymRe():
+    from symex import symre
     from symex.symre import SymReModule
+
+    symre.SPECIAL[('match', r'(?:\d+)?([a-zA-Z]+)')] = _isotope_match
+    symre.SPECIAL[('match', r'(\d+)?([a-zA-Z]+)')] = lambda s_: _isotope_match(s_, capture_digits=True)
 
     return SymReModule(special={('match', r'(?:\d+)?([a-zA-Z]+)'): _isotope_match,
                                 ('match', r'(\d+)?([a-zA-Z]+)'): lambda s_: _isotope_match(s_, capture_digits=True)})
@@ -225,7 +275,10 @@ def job_row(j, seed):
                 fields += [fv_, fs_]
             else:
                 fields += ['1.5', ''] if k % 2 else ['', '']
-        sp = atoms.ScatteringParams._parse_line('X', SymLine(fields))
+        _UNIQ['n'] += 1
+        iso = f'X{_UNIQ["n"]}'  # a new name on every execution: the public lookup is cached per name
+        atoms.importlib = FakeImportlib({'scattering_parameters.csv': lambda: FakeFile([SymLine(['isotope', *['h'] * 16]), SymLine([iso, *fields])])})
+        sp = atoms.ScatteringParams.for_isotope(iso)
         return sp, fields[2 * kattr], fields[2 * kattr + 1]
 
     paths = C.explore(run)
@@ -290,8 +343,13 @@ def job_lookup(j, seed):
     def run():
         names = [SymStr(f'name{i}') for i in range(nrows)]
         q = SymStr('query')
-        lines = [SymLine([names[i], f'{i}.0', '']) for i in range(nrows)]
-        r = atoms._find_line_with_isotope(q, FakeFile(lines))
+        lines = [SymLine([names[i], f'{i}.0', '', *[''] * 14]) for i in range(nrows)]
+        atoms.importlib = FakeImportlib({'scattering_parameters.csv': lambda: FakeFile(lines)})
+        try:
+            sp = atoms.ScatteringParams.for_isotope(q)
+            r = int(builtins.float(sp.coherent_scattering_length_re.value.const_value()))
+        except ValueError:
+            r = None
         return r, names, q
 
     paths = C.explore(run, max_paths=64)
@@ -305,7 +363,7 @@ def job_lookup(j, seed):
             goal = C.all_of([~e for e in eq])
             nm = 'None <=> no row name equals the query'
         else:
-            i = int(builtins.float(r.fields[0]))
+            i = r
             goal = eq[i] & C.all_of([~eq[m] for m in range(i)])
             nm = f'row {i} <=> first row whose name equals the query exactly'
         ob = C.prove(f'lookup[{nrows}]:path{k}:{nm}', goal, pc=p.pc)
@@ -334,7 +392,7 @@ def job_atom(j, seed):
     def opener(name):
         return files[name]()
 
-    atoms._open_bundled_parameters_file = opener
+    atoms.importlib = FakeImportlib(type('L', (), {'__getitem__': lambda self, name: (lambda: opener(name))})())
     C.CTX.fork_timeout_ms = 5000
 
     def run():
@@ -490,8 +548,20 @@ def replay_real(case):
         for q in range(8):
             fields += [cv, cs] if q == k else (['1.5', ''] if q % 2 else ['', ''])
         line = ','.join(fields) + '\n'
+        import io as _io
+        import importlib.resources as _res
+
+        class _Files:
+            def joinpath(self, name):
+                class _P:
+                    def open(self, *a, **k):
+                        return _io.StringIO('isotope,' + ','.join(['h'] * 16) + '\nXcell,' + line)
+                return _P()
+
+        real_files = _res.files
+        _res.files = lambda pkg: _Files()
         try:
-            sp = atoms.ScatteringParams._parse_line('X', line)
+            sp = atoms.ScatteringParams.for_isotope('Xcell')
             got = getattr(sp, attr)
             if not cv:
                 if got is not None:
@@ -505,6 +575,8 @@ def replay_real(case):
                     bad.append(f'cells ({cv!r}, {cs!r}) give {got.value} +- var {got.variance} [{got.unit}], expected {ev} +- var {es} [{unit}]')
         except Exception as e:  # noqa: BLE001
             bad.append(f'cells ({cv!r}, {cs!r}): {type(e).__name__}: {e}')
+        finally:
+            _res.files = real_files
         return {'reproduced': bool(bad), 'detail': '; '.join(bad[:2])}
     if kind in ('tables', 'row', 'lookup', 'atom'):
         stride = case.get('stride', 11)
